@@ -34,9 +34,9 @@ type Scenario struct {
 	// APICrossParent: --generate-plugin-api on a program with a service whose parent lives in another
 	// module, which the built-in generator (today) cannot render: the run may fail or not
 	APICrossParent bool
-	SymlinkRoot  bool // the directory holding the Thrift files is reached through a symbolic link
-	PkgPrefix    string // --pkg-prefix as written on the command line (not necessarily in canonical form)
-	RelPaths     int  // 0: absolute paths on the command line; 1: relative to the sandbox; 2: relative to the directory of the Thrift file
+	SymlinkRoot    bool   // the directory holding the Thrift files is reached through a symbolic link
+	PkgPrefix      string // --pkg-prefix as written on the command line (not necessarily in canonical form)
+	RelPaths       int    // 0: absolute paths on the command line; 1: relative to the sandbox; 2: relative to the directory of the Thrift file
 	// C17
 	FailModule int    // index of the file that fails (-1: none)
 	FailKind   string // "gen-reserved", "gen-goname" or "compile"
